@@ -92,6 +92,21 @@ func suiteConvertPlain(R *runner, r *rng) {
 			}
 			for _, dst := range plainCodecs {
 				if _, skip := plainSkipPairs[src.name+"->"+dst.name]; skip {
+					if suite, ok := plainStyledModels[src.name+"->"+dst.name]; ok {
+						// the pair is not the plain-view conversion, but a model of what the destination writer sees exists
+						s2, _ := src.read(doc)
+						var out bytes.Buffer
+						o := &obs{Suite: suite, Group: "styled." + src.name + "->" + dst.name, Input: (&enc{}).n(src.code).bytes(doc).String(), NT: true,
+							Human: map[string]interface{}{"source": src.name, "destination": dst.name, "document": string(doc)}}
+						R.count("styled." + src.name + "->" + dst.name)
+						if werr := dst.write(s2, &out); werr != nil {
+							o.Impl = "1"
+						} else {
+							o.Impl = (&enc{}).n(0).bytes(out.Bytes()).String()
+						}
+						R.add(o)
+						continue
+					}
 					R.count("plain.restricted." + src.name + "->" + dst.name)
 					continue
 				}
@@ -176,19 +191,19 @@ func suiteConvertPlain(R *runner, r *rng) {
 
 // pairs for which the library's conversion of STYLED sources is not the conversion through the plain view, with the
 // reason (what the source reader sets that the destination writer emits)
+// pairs whose styled conversion has its own model (driver suite name): registered by the destination's harness file
+var plainStyledModels = map[string]string{}
+
 var plainStyledSkipPairs = map[string]string{
-	"srt->srt":  "same format: the markup is kept (C01)",
-	"vtt->vtt":  "same format: tags, settings, regions are kept (C02)",
-	"ssa->ssa":  "same format: styles, override blocks, script info are kept (C04)",
-	"srt->vtt":  "bold/italic/underline travel as tags and the font colour as a class (modelled by Model/Conv.v, suites convsv/convops)",
-	"srt->ttml": "the font colour travels as tts:color and every run is written as its own span",
-	"srt->stl":  "the STL writer joins the runs of a line with a space; the plain view puts run texts together",
-	"vtt->stl":  "the STL writer joins the runs of a line with a space",
-	"ssa->stl":  "the STL writer joins the runs of a line with a space",
-	"vtt->ssa":  "voice names travel as the Name column",
-	"ssa->vtt":  "the speaker name travels as a voice tag",
-	"vtt->ttml": "regions and the default style are written as TTML layout/styling; runs as spans",
-	"ssa->ttml": "the styles map is written as TTML styling; runs as spans",
+	"srt->srt": "same format: the markup is kept (C01)",
+	"vtt->vtt": "same format: tags, settings, regions are kept (C02)",
+	"ssa->ssa": "same format: styles, override blocks, script info are kept (C04)",
+	"srt->vtt": "bold/italic/underline travel as tags and the font colour as a class (modelled by Model/Conv.v, suites convsv/convops)",
+	"srt->stl": "the STL writer joins the runs of a line with a space; the plain view puts run texts together",
+	"vtt->stl": "the STL writer joins the runs of a line with a space",
+	"ssa->stl": "the STL writer joins the runs of a line with a space",
+	"vtt->ssa": "voice names travel as the Name column",
+	"ssa->vtt": "the speaker name travels as a voice tag",
 	// TTML sources are decoded through the XML parser model for hand-written documents (Kit/XmlParse2.v); ttml->srt is
 	// compared; the pairs below legitimately differ from the plain view:
 	"ttml->vtt":  "TTML regions (with their origin/extent mapped to WebVTT settings) and the cue's region travel to WebVTT",
@@ -202,7 +217,7 @@ var plainStyledSkipPairs = map[string]string{
 // view: for these pairs the destination writer ignores everything the source reader sets besides times and text
 // (C07_any_source then applies to the styled document).
 func suiteConvertPlainStyled(R *runner, r *rng) {
-	R.rule("conversion of styled sources through the plain view: styled SubRip, WebVTT with regions/settings/tags/voices, SSA/ASS with styles/script info/override blocks, TTML with styles/regions (run texts = Latin words), every destination among the modelled codecs except the pairs listed with their reason in plainStyledSkipPairs; destination bytes of the library vs convert_plain")
+	R.rule("conversion of styled sources through the plain view: styled SubRip, WebVTT with regions/settings/tags/voices, SSA/ASS with styles/script info/override blocks, TTML with styles/regions (run texts = Latin words), every destination among the modelled codecs except the pairs listed with their reason in plainStyledSkipPairs; destination bytes of the library vs convert_plain; pairs with a model of their own (plainStyledModels: srt/vtt/ssa/stl -> ttml, Model/ConvTtml.v) vs that model's convert_S_F")
 	N := 12
 	if R.tier == "thorough" {
 		N = 200
@@ -279,6 +294,26 @@ func suiteConvertPlainStyled(R *runner, r *rng) {
 			}
 			for _, dst := range plainCodecs {
 				pair := src.name + "->" + dst.name
+				if suite, ok := plainStyledModels[pair]; ok {
+					// a model of what the destination writer sees of this source's cues exists: compare the bytes with it
+					s2, _ := src.read(doc)
+					var out bytes.Buffer
+					o := &obs{Suite: suite, Group: "styled." + pair, Input: (&enc{}).n(src.code).bytes(doc).String(), NT: true,
+						Human: map[string]interface{}{"source": src.name, "destination": dst.name, "document": string(doc)}}
+					R.count("styled." + pair)
+					var werr error
+					p := safely(func() { werr = dst.write(s2, &out) })
+					switch {
+					case p != "":
+						o.Impl, o.Oracle, o.Sig = "2", fmt.Sprintf("%s -> %s panicked: %s", src.name, dst.name, p), "convstyled-panic"
+					case werr != nil:
+						o.Impl = "1"
+					default:
+						o.Impl = (&enc{}).n(0).bytes(out.Bytes()).String()
+					}
+					R.add(o)
+					continue
+				}
 				if _, skip := plainStyledSkipPairs[pair]; skip {
 					R.count("plain.styled.restricted." + pair)
 					continue
